@@ -78,6 +78,9 @@ class Authenticator:
             raise AuthenticationError("invalid: Too old")
         elif since <= -600:
             raise AuthenticationError("invalid: Too new")
+        elif not (-600 < since < 600):
+            # NaN (which the JSON parser reads) compares false with everything
+            raise AuthenticationError("invalid: Bad timestamp")
         found_relay = found_challenge = False
         for tag in auth_event.tags:
             if tag[0] == "relay":
